@@ -16,20 +16,23 @@ XResetTo(arg) ==
   /\ obs' = [a |-> "init", g |-> {}, arg |-> [mode |-> "stream", max |-> arg.max, via |-> "conn"], exp |-> [ret |-> "ok"]]
   /\ tr' = arg.tr /\ cid' = 0 /\ wait' = <<>> /\ out' = <<>>
   /\ net' = [AB |-> <<>>, BA |-> <<>>] /\ held' = <<>> /\ arr' = <<>>
-  /\ hg' = [h \in 1..MaxH |-> 0] /\ cnt' = [plain |-> 0, stray |-> 0] /\ forged' = FALSE
+  /\ hg' = [h \in 1..MaxH |-> 0] /\ cnt' = [plain |-> 0, stray |-> 0, breq |-> 0, bplain |-> 0, chain |-> 0] /\ forged' = FALSE /\ bq' = <<>>
   /\ xobs' = [a |-> "init", arg |-> arg, exp |-> [ret |-> "ok"], g |-> <<>>]
 
+Cb(arg) == [ret |-> arg.cret, chain |-> arg.chain, cw |-> arg.cw, hret |-> arg.hret]
 Step(ev) ==
   CASE ev.a = "init"     -> XResetTo(ev.arg)
     [] ev.a = "await"    -> IF ev.obs.ret = "ok" THEN AwaitOk(ev.obs.id, ev.arg.w) ELSE AwaitRefused(ev.arg.w)
-    [] ev.a = "send"     -> Send(ev.arg.data)
+    [] ev.a = "send"     -> IF "end" \in DOMAIN ev.arg /\ ev.arg.end = "B" THEN PlainB(ev.arg.data) ELSE Send(ev.arg.data)
+    [] ev.a = "request"  -> ev.obs.ret = "ok" /\ RequestB(ev.arg.w, ev.obs.id, ev.arg.data)
     [] ev.a = "deliver"  -> IF ev.arg.dir = "AB"
-                            THEN DeliverB(ev.arg.k, ev.arg.act, ev.arg.data, ev.arg.hret, ev.arg.h)
-                            ELSE IF ev.arg.k = 0 THEN DeliverArr \/ DeliverArrNone
-                            ELSE DeliverA(ev.arg.k)
+                            THEN IF ev.arg.k \in DOMAIN net.AB /\ IsReply(net.AB[ev.arg.k].id) THEN BReplied(ev.arg.k)
+                                 ELSE DeliverB(ev.arg.k, ev.arg.act, ev.arg.data, ev.arg.hret, ev.arg.h)
+                            ELSE IF ev.arg.k = 0 THEN DeliverArr(Cb(ev.arg), ev.obs.cids) \/ DeliverArrNone(Cb(ev.arg))
+                            ELSE DeliverA(ev.arg.k, Cb(ev.arg), ev.obs.cids)
     [] ev.a = "hold"     -> Hold(ev.arg.k)
-    [] ev.a = "dispatch" -> DispatchHeld
-    [] ev.a = "sync"     -> \E n \in 0..(Len(arr) + Len(ev.arg.ks)) : Sync(ev.arg.ks, n)
+    [] ev.a = "dispatch" -> DispatchHeld(Cb(ev.arg), ev.obs.cids)
+    [] ev.a = "sync"     -> \E n \in 0..(Len(arr) + Len(ev.arg.ks)) : Sync(ev.arg.ks, n, Cb(ev.arg), ev.obs.cids)
     [] ev.a = "stray"    -> StrayBytes(ev.obs.id, ev.arg.data) /\ X("stray", ev.arg, [ret |-> "ok"], <<>>)
     [] ev.a = "drop"     -> Drop(ev.arg.dir, ev.arg.k)
     [] ev.a = "dreply"   -> DReplyB(ev.arg.h, ev.arg.data)
@@ -41,6 +44,7 @@ Matches(ev) ==
   LET e == xobs'.exp IN
   /\ "ret" \in DOMAIN e => (e.ret = "any" \/ e.ret = ev.obs.ret)
   /\ "calls" \in DOMAIN e => e.calls = ev.obs.calls
+  /\ "chain" \in DOMAIN e => e.chain = ev.obs.chain
   /\ "wire" \in DOMAIN e => e.wire = ev.obs.wire
   /\ "seen" \in DOMAIN e => e.seen = ev.obs.seen
   /\ "r2" \in DOMAIN e => e.r2 = ev.obs.r2
